@@ -169,6 +169,21 @@ CHECKS["C04"] = dict(
          "term-level tie (element models are created during the call); their values, sizes and outcomes are judged by the oracle.",
     technique="Coq proof over list-expansion model + per-call differential correspondence (transcript and enumeration oracle in Coq)",
     ref="DESIGN.md §3 C04")
+CHECKS["C06"] = dict(
+    text="Theorems (Coq, closed; Rand/Dyn.v): a dynamic-constraint reference inside an expression is a 1-bit Boolean term that is "
+         "true iff every statement of the referenced block is true; | & ~ compose such terms as Boolean operators (closed under "
+         "nesting); a reference used as a statement (inline expansion) means the same as the term; the term the code builds "
+         "evaluates to that conjunction (the C01 lowering theorem applies); the with-block of randomize_with, modelled on the "
+         "scope stack, hands the solve exactly the body's statements whatever lay below and restores the stack, any number of "
+         "calls leave no trace, and a call enforces exactly class statements + its own inline set. Tie per call: scenarios with "
+         "several live instances per class (two sub-objects of one class per root, 1-3 roots created before / after), inline sets "
+         "that change and conflict from call to call, references through root and sub-objects; the solver transcript is compared "
+         "with the model's terms, where every reference is expanded to the block of the object it is written through over that "
+         "object's fields; values, frame and outcome are judged by enumeration in Coq.",
+    note=SOLVER_NOTE + "Dynamic blocks hold relational expression statements; references inside if / implies bodies and through "
+         "list elements are not generated. Which object a path denotes is the harness's reading of the scenario (the specification).",
+    technique="Coq proof over dynamic-reference / scope-stack model + per-call differential correspondence (transcript and enumeration oracle in Coq)",
+    ref="DESIGN.md §3 C06")
 CHECKS["C14"] = dict(
     text="PARTIAL. Theorems (Coq, closed): the range-trimming primitives of bounds inference never remove a value satisfying "
          "the bound; the randomising pattern's slices are exactly the low d bits, within the chosen range these bits (sign bit "
